@@ -1,9 +1,9 @@
 """C19 — plugin verdicts are enforced before anything reaches a server.
 
 P : coq/Plugin/{Model,Spec,Proofs,Props}.v
-      names      c19_name_complete / c19_name_sound (+ _nonascii_refuted, _truncation_refuted)
+      names      c19_name_complete / c19_name_sound (any UTF-8 spelling, any length), c19_clip_is_truncate
       message    c19_message_blocked / c19_deny_sound
-      machine    c19_enforced (+ c19_ps_cache_refuted), c19_enforced_messages, c19_batch_dropped,
+      machine    c19_enforced (unconditional), c19_rejected_names_forgotten, c19_batch_dropped,
                  c19_q_answered, c19_sync_answers_*, c19_no_stale_verdict
       intercept  c19_intercept_exact / c19_intercept_only_matching
       disabled   c19_disabled_noop / c19_plugins_none_allow
@@ -25,13 +25,15 @@ from props import routerlib as RL
 
 COQ_FILES = ["Plugin/Model.v", "Plugin/Spec.v", "Plugin/Proofs.v", "Plugin/Props.v"]
 PRE = ("From PV Require Import Plugin.Model Plugin.Spec.\nFrom Coq Require Import ZArith NArith List Bool. Import ListNotations.\n"
-       "Definition pv_eqb (a b : pverdict) : bool := match a, b with PAllow, PAllow => true | PPanic, PPanic => true "
+       "Definition pv_eqb (a b : pverdict) : bool := match a, b with PAllow, PAllow => true "
        "| PDeny x, PDeny y => bytes_eqb x y | PIntercept x, PIntercept y => bytes_eqb x y | _, _ => false end.\n"
-       "Definition pv_kind (a : pverdict) : nat := match a with PAllow => 0 | PDeny _ => 1 | PIntercept _ => 2 | PPanic => 3 end.")
+       "Definition pv_kind (a : pverdict) : nat := match a with PAllow => 0 | PDeny _ => 1 | PIntercept _ => 2 end.")
 # NOTE: vlib.coq_eval does not drain the coqc pipes while polling: keep the printed output of one shard well below
 # the 64 KiB pipe buffer (small shards, and let Coq compare long byte strings instead of printing them).
 
 # Defects confirmed on the current tree (reported; printed as KNOWN-FINDING, never silently skipped).
+# Repaired since and now VIOLATIONS if they come back: non-ASCII folding and 63-byte truncation (3943b22), the replay of a
+# rejected Parse through the prepared-statement map (0acefb2), the intercept schema panic (b98e532), the stale Intercept (a7d476c).
 KNOWN = {
     "only": "C19-only-keyword: `SELECT * FROM ONLY secret` / `DELETE FROM ONLY secret` / `UPDATE ONLY secret ..` pass table_access "
             "(sqlparser reads ONLY as the table name and the listed table as its alias; PostgreSQL reads the listed table)",
@@ -39,13 +41,8 @@ KNOWN = {
                  "table_access (SetExpr::Table is not reported by visit_relations)",
     "ddl_ref": "C19-ddl-references: `CREATE TABLE x (LIKE secret)`, `.. REFERENCES secret (a)`, `CREATE TRIGGER .. ON secret`, `COMMENT ON TABLE secret`, "
                "`GRANT .. ON secret` pass table_access (names not reported by visit_relations)",
-    "nonascii": "C19-nonascii-fold: listed table \"secrÉt\" spelled unquoted secrÉt passes table_access (Rust to_lowercase folds É, PostgreSQL/UTF8 does not)",
-    "trunc": "C19-identifier-truncation: a listed 63-byte table name spelled with extra trailing characters passes table_access (PostgreSQL truncates identifiers to 63 bytes)",
-    "ps_cache": "C19-ps-cache-replay (theorem c19_ps_cache_refuted; observed on the wire): with prepared-statement caching, Parse(s1, denied) Sync registers s1 in the client map before the "
-                "verdict is enforced; Bind(s1) Execute Sync makes pgcat send the cached Parse and run it",
     "maxlen": "C19-parser-max-length: with query_parser_max_length set, a message longer than the limit is never parsed, so no plugin runs and it is forwarded: "
               "'SELECT * FROM secret' padded with blanks beyond the limit passes table_access",
-    "schema_panic": "C19-intercept-schema-panic: an intercept rule whose schema has an entry with fewer than two strings panics the client task when its query matches (row[1])",
 }
 
 
@@ -143,9 +140,9 @@ REQUIRED_GROUPS = ["from", "join", "subquery", "cte", "dml_target", "using", "co
                    "explain", "ctas", "setop", "lateral", "tablefunc"]
 FILLERS = ["SELECT 1", "BEGIN", "COMMIT", "SELECT * FROM other_tbl", "SET statement_timeout = 0", "SELECT 'secret'"]
 
-LISTED_POOL = [b"secret", b"pg_user", b"Mixed", b"a.b", b"UPPER", b"tbl_1", b"has space", b"t" + b"x" * 62]
+LISTED_POOL = [b"secret", b"pg_user", b"Mixed", b"a.b", b"UPPER", b"tbl_1", b"has space", b"t" + b"x" * 62, b"u" + b"y" * 61]
 UNLISTED_POOL = [b"other", b"secrets", b"secre", b"users", b"mixed", b"upper", b"b", b"public"]
-NONASCII_POOL = ["secrÉt".encode(), "données".encode(), "Über".encode(), "straße".encode()]
+NONASCII_POOL = ["secrÉt".encode(), "données".encode(), "Über".encode(), "straße".encode(), ("é" * 31 + "x").encode(), ("w" * 60 + "é").encode()]
 
 
 def note(st, cls, detail, prio=0):
@@ -212,6 +209,8 @@ def gen_table_cases(rng, n, nonascii=False):
         sp = spellings(rng, base)
         if len(base) >= 63 and rng.random() < 0.5:
             sp.append((base + b"yz", False)); sp.append((base + b"Q", True))
+        if len(base) in (62, 63) and rng.random() < 0.5:      # a 2-byte character across / right after the 63-byte limit
+            sp.append((base + "éz".encode(), False)); sp.append((base + "É".encode(), True)); sp.append((base.upper() + "Éé".encode(), False))
         ident = rng.choice(sp)
         qual = rng.choice(QUALS)
         T = list(qual) + [ident]
@@ -244,13 +243,7 @@ def gen_table_cases(rng, n, nonascii=False):
 
 def known_class(case, resp_labels):
     """which reported defect class explains an expected-deny / real-allow case"""
-    if case["gap"]:
-        return case["gap"]
-    if any(any(c >= 128 for c in nm[-1][0]) for nm in resp_labels):
-        return "nonascii"
-    if any(len(nm[-1][0]) > 63 for nm in resp_labels):
-        return "trunc"
-    return None
+    return case["gap"] or None
 
 
 def check_tables(run, bins, cases, tag, st):
@@ -321,10 +314,9 @@ def check_tables(run, bins, cases, tag, st):
         # Coq [matches] on the labels vs the PostgreSQL rule (c19_name_complete / _sound on concrete spellings)
         for nm, mm in zip(c["labels"], mlab):
             pg = pg_resolve(*nm[-1]) in c["listed"]
-            asc = all(x < 128 for x in nm[-1][0]) and len(nm[-1][0]) <= 63
             st["spellings"].add((nm[-1], len(nm), pg))
-            if mm != pg and asc:
-                run.violation("proof-broken", "Coq matches and the PostgreSQL rule disagree on the ASCII identifier %r" % (nm,),
+            if mm != pg:
+                run.violation("proof-broken", "Coq matches and the PostgreSQL rule disagree on the identifier %r" % (nm,),
                               {"theorem": "c19_name_complete/c19_name_sound", "input": {"name": str(nm), "listed": str(c["listed"])}}, found_input=False)
                 return evals
         if expect_deny and c["real"] != "deny":
@@ -338,13 +330,9 @@ def check_tables(run, bins, cases, tag, st):
                               {"input": inp, "impl": c["real"], "expected": "deny", "relation": str(resp[0]), "listed": [b.decode("utf8", "replace") for b in c["listed"]]})
                 return evals
         elif not expect_deny and c["real"] == "deny":
-            nonasc = any(any(x >= 128 for x in nm[-1][0]) for nm in c["labels"])
-            if nonasc:
-                st["overblock_nonascii"] += 1     # Rust folds more than PostgreSQL: a different table is blocked (harmless direction)
-            else:
-                run.violation("counterexample", "table_access denies %r although no mentioned relation resolves to a listed table" % c["sql"],
-                              {"input": inp, "impl": [c["real"], c["real_msg"]], "expected": "allow"})
-                return evals
+            run.violation("counterexample", "table_access denies %r although no mentioned relation resolves to a listed table" % c["sql"],
+                          {"input": inp, "impl": [c["real"], c["real_msg"]], "expected": "allow"})
+            return evals
         if expect_deny:
             st["denied"] += 1
     return evals
@@ -435,7 +423,7 @@ def gen_intercept_cases(rng, n):
         if rng.random() < 0.06:
             key = rng.choice(sorted(rules))
             if rules[key]["schema"]:
-                rules[key]["schema"][-1] = rules[key]["schema"][-1][:1]
+                rules[key]["schema"][-1] = rules[key]["schema"][-1][:rng.choice([0, 1, 1])]
                 panic_rule = True
         stm = []
         for _ in range(rng.choice([1, 1, 1, 2, 3])):
@@ -523,9 +511,8 @@ def expected_reply(case, norms):
             r = ic["queries"][k]
             if bytes(c + 32 if 65 <= c <= 90 else c for c in r["query"].encode()) != bytes(c + 32 if 65 <= c <= 90 else c for c in nf):
                 continue
-            if any(len(row) < 2 for row in r["schema"]):
-                return "panic"
-            out.append(("T", [(row[0].encode(), 0, 0) + OIDS.get(row[1], (2276, -1)) + (-1, 0) for row in r["schema"]]))
+            # a schema entry without a type / name: empty defaults, type Any (b98e532)
+            out.append(("T", [((row[0] if row else "").encode(), 0, 0) + OIDS.get(row[1] if len(row) > 1 else "", (2276, -1)) + (-1, 0) for row in r["schema"]]))
             for row in r["result"]:
                 cells = []
                 for c in row:
@@ -552,7 +539,11 @@ def check_intercept(run, bins, cases, st):
         stm = "; ".join("mkStmt %s %s %s" % (vlib.coq_bytes(bytes.fromhex(s["norm"])), coq_names(names_from_json(s["explicit"])), coq_names(names_from_json(s["visited"])))
                         for s in po["stmts"])
         real = c["real"]
-        rv = {"allow": "PAllow", "panic": "PPanic"}.get(real[0]) or ("(%s %s)" % ("PDeny" if real[0] == "deny" else "PIntercept", vlib.coq_bytes(bytes.fromhex(real[1]))))
+        if real[0] == "panic":
+            run.violation("counterexample", "execute_plugins panics on %r" % c["sql"],
+                          {"input": {"sql": c["sql"], "proto": c["proto"], "plugins": c["plugins"], "user": c["user"], "db": c["db"]}, "impl": "panic", "expected": "no panic"})
+            return 0
+        rv = {"allow": "PAllow"}.get(real[0]) or ("(%s %s)" % ("PDeny" if real[0] == "deny" else "PIntercept", vlib.coq_bytes(bytes.fromhex(real[1]))))
         c["expr"] = "execute_plugins %s %s %s [%s]" % (coq_pcfg(c["plugins"]), vlib.coq_bytes(c["user"].encode()), vlib.coq_bytes(c["db"].encode()), stm)
         exprs.append("let m := %s in (pv_eqb m %s, pv_kind m)" % (c["expr"], rv))
         idx.append(k)
@@ -567,7 +558,7 @@ def check_intercept(run, bins, cases, st):
         real = c["real"]
         if real[0] == "deny":
             real = ["deny", real[1]]
-        model = [["allow", "deny", "intercept", "panic"][kind]]
+        model = [["allow", "deny", "intercept"][kind]]
         st["icpt_kinds"][model[0]] = st["icpt_kinds"].get(model[0], 0) + 1
         st["distinct"].add(("icpt", c["sql"], json.dumps(c["plugins"], sort_keys=True), c["user"], c["db"]))
         if not same:
@@ -580,11 +571,6 @@ def check_intercept(run, bins, cases, st):
             return evals
         # monitor: the reply, read independently, is what the configuration says
         exp = expected_reply(c, c["norms"])
-        if exp == "panic":
-            if real[0] == "panic":
-                st["known"]["schema_panic"] = st["known"].get("schema_panic", 0) + 1
-                note(st, "schema_panic", " [e.g. schema %s]" % json.dumps([r["schema"] for r in c["plugins"]["intercept"]["queries"].values()][:1]))
-            continue
         if exp is None:
             if real[0] == "intercept":
                 run.violation("counterexample", "a message matching no intercept rule is intercepted: %r" % c["sql"], {"input": inp, "impl": real})
@@ -729,7 +715,7 @@ A, T, F = ("Allow",), True, False
 STD = {"parser_on": T, "plugins_on": T, "ps_on": F, "txn_mode": T}
 PSC = dict(STD, ps_on=T)
 # boundary sequences, always first: the repaired overwrite, every position of a rejected Parse in a batch, Q inside a
-# transaction, pending verdict consumed by a Q, the reported gap (witness of c19_ps_cache_refuted) and the repaired stale-Intercept sequence
+# transaction, pending verdict consumed by a Q, the repaired prepared-statement replay and stale-Intercept sequences
 FIXED = [
     (STD, [("MP", 1, 0, 7, T, ("Deny", 1)), ("MP", 2, 0, 8, T, A), ("MB", 3, 0), ("ME", 4), ("MS", 5, T, F)]),
     (STD, [("MP", 1, 0, 8, T, A), ("MB", 2, 0), ("ME", 3), ("MP", 4, 0, 7, T, ("Deny", 4)), ("MB", 5, 0), ("ME", 6), ("MS", 7, T, F)]),
@@ -752,6 +738,14 @@ FIXED = [
     (PSC, [("MP", 1, 1, 7, T, A), ("MB", 2, 1), ("MC", 3, T, 1), ("MB", 4, 1), ("ME", 5), ("MS", 6, T, F)]),
     (PSC, [("MP", 1, 1, 7, T, A), ("MC", 2, T, 1), ("MC", 3, F, 1), ("MC", 4, T, 0), ("MS", 5, T, F)]),
     (PSC, [("MP", 1, 1, 7, T, A), ("MD", 2, T, 1), ("MD", 3, F, 0), ("MS", 4, T, F)]),
+    # 80b6794 / f56a2eb / 0acefb2: Close forgets the name when it arrives, a Bind keeps the statement its name meant when it
+    # arrived, a name re-used by a rejected Parse is forgotten with the batch
+    (PSC, [("MP", 1, 1, 7, T, A), ("MS", 2, T, F), ("MC", 3, T, 1), ("MP", 4, 1, 8, T, A), ("MB", 5, 1), ("ME", 6), ("MS", 7, T, F)]),
+    (PSC, [("MP", 1, 1, 7, T, A), ("MS", 2, T, F), ("MB", 3, 1), ("MC", 4, T, 1), ("MP", 5, 1, 8, T, A), ("ME", 6), ("MS", 7, T, F)]),
+    (PSC, [("MP", 1, 1, 7, T, A), ("MC", 2, T, 1), ("MB", 3, 1)]),
+    (PSC, [("MP", 1, 1, 7, T, A), ("MS", 2, T, F), ("MP", 3, 1, 8, T, ("Deny", 3)), ("MS", 4, T, F), ("MB", 5, 1)]),
+    (PSC, [("MP", 1, 1, 7, T, ("Intercept", 1)), ("MB", 2, 1), ("ME", 3), ("MS", 4, T, F), ("MD", 5, T, 1)]),
+    (PSC, [("MP", 1, 1, 7, T, ("Deny", 1)), ("MP", 2, 2, 8, T, A), ("MS", 3, T, F), ("MB", 4, 2)]),
     (dict(STD, txn_mode=F), [("MQ", 1, T, A, T, F), ("MP", 2, 1, 7, T, ("Deny", 2)), ("MS", 3, T, F), ("MQ", 4, T, ("Intercept", 4), T, F), ("MH", 5, T), ("MQ", 6, T, A, T, F)]),
 ]
 
@@ -795,13 +789,9 @@ def check_sequences(run, n, st):
                 continue
             for it in e["items"]:
                 if bad_op(cfg, byid[it["id"]]):
-                    if it["k"] == "pgcat_parse" and cfg["ps_on"]:
-                        st["known"]["ps_cache"] = st["known"].get("ps_cache", 0) + 1
-                        note(st, "ps_cache", " [model sequence %s]" % json.dumps(s["wire"]["messages"]))
-                    else:
-                        run.violation("proof-broken", "the Coq model forwards a rejected message outside the known class: %s" % json.dumps(s["ops"]),
-                                      {"theorem": "c19_enforced", "input": {"cfg": cfg, "ops": s["ops"]}, "model": s["expected_events"]}, found_input=False)
-                        return len(seqs)
+                    run.violation("proof-broken", "the Coq model forwards a rejected message: %s" % json.dumps(s["ops"]),
+                                  {"theorem": "c19_enforced", "input": {"cfg": cfg, "ops": s["ops"]}, "model": s["expected_events"]}, found_input=False)
+                    return len(seqs)
     st["seq_sample"] = {k: seqs[0][k] for k in ("cfg", "ops", "wire", "expected_events")} if seqs else None
     return len(seqs)
 
@@ -1068,20 +1058,16 @@ def check_wire(run, n, st):
                            "model": {"backend": ex["backend"], "client": ex["client"]}}, found_input=False)
         return len(scns)
     # model and implementation agree on every scenario.  Now the property itself on what was OBSERVED: a rejected text at
-    # the server / rows for a batch that earned none are defects, accepted only as the two reported classes.
+    # the server / rows for a batch that earned none are defects.
     for (c, ops, rows), ex, res in zip(metas, exps, results):
         if not (c["plugins_on"] and c["parser_on"]):
             continue
         back, groups, _, _ = observe_wire(res, ex["texts"])
         for b in back:
             if len(b) == 2 and re.search(r"FROM secret\d+$| as intercepted$", b[1]):
-                if c["ps_on"] and b[0] == "P":
-                    st["known"]["ps_cache_wire"] = st["known"].get("ps_cache_wire", 0) + 1
-                    note(st, "ps_cache", " [wire: the server received Parse %r after the client had been told permission denied]" % b[1], prio=1)
-                else:
-                    run.violation("counterexample", "a statement the plugins rejected reached the server: %s" % (b,),
-                                  {"input": {"cfg": c, "ops": [list(o) for o in ops]}, "impl": {"backend": back}})
-                    return len(scns)
+                run.violation("counterexample", "a statement the plugins rejected reached the server: %s" % (b,),
+                              {"input": {"cfg": c, "ops": [list(o) for o in ops]}, "impl": {"backend": back}})
+                return len(scns)
         # rows answered to a batch that holds no intercepted Parse (the batch = the messages buffered since the last Sync /
         # the last consumption of a pending verdict), or to a Query that is not itself intercepted
         gi, batch = 0, []
@@ -1117,7 +1103,7 @@ def check(run):
         "(validated per run at library level for everything except the Client::handle state machine, which needs the wire harness)",
         "coq/Plugin/Spec.v pg_resolve transcribes PostgreSQL's identifier rule for a UTF8 database (scan.l, scansup.c downcase_identifier/truncate_identifier); no PostgreSQL in the sandbox",
         "sqlparser 0.52 is environment: the theorems speak about the relations it reports; that it reports every mentioned relation is tested per statement shape (L2), not proved",
-        "Rust str::to_lowercase is modelled exactly for ASCII and Latin-1 letters only; theorems are stated for ASCII identifiers of at most 63 bytes",
+        "identifiers are UTF-8 (Rust Strings always are); PostgreSQL side = UTF8 server encoding (single-byte encodings fold high-bit letters with the C locale: not modelled)",
         "plugins are evaluated on the pooler's parse of the text; statements sqlparser rejects are forwarded unchecked (outside the property; counted)",
     ]
     run.cov["trusted_base"] = ["coqc 8.16.1 kernel", "vm_compute", "coq/Plugin/Model.v (hand transcription)", "coq/Plugin/Spec.v (PostgreSQL identifier rule, backend message reader)",
@@ -1139,7 +1125,7 @@ def check(run):
                 run.violation("proof-broken", "Plugin/Props.v no longer checks; no failing statement found in the search", {"theorem": "Plugin/Props.v", "coq_log": log[-2500:]}, found_input=False)
         return
     st = {"kf": {}, "rejected": 0, "rejected_by_group": {}, "by_group": {}, "by_pos": {}, "distinct": set(), "spellings": set(), "known": {}, "known_samples": {}, "denied": 0,
-          "overblock_nonascii": 0, "gaps_closed": set(), "icpt_kinds": {}, "icpt_matched": 0, "seq": 0, "seq_events": {}, "wire": 0, "wire_groups": {}, "wire_forwarded": 0}
+          "gaps_closed": set(), "icpt_kinds": {}, "icpt_matched": 0, "seq": 0, "seq_events": {}, "wire": 0, "wire_groups": {}, "wire_forwarded": 0}
     evals = 0
     nt = 1000 if quick else 40000
     cases = gen_table_cases(rng, nt)
@@ -1162,8 +1148,6 @@ def check(run):
     missing_groups = [g for g in REQUIRED_GROUPS if st["by_group"].get(g, 0) == 0]
     if missing_groups and not run.violations:
         run.broken.append("statement groups never accepted by the parser: %s" % missing_groups)
-    # the model-level findings are reported on every run (their witnesses are theorems of Props.v)
-    note(st, "ps_cache", "", prio=-1)
     for cls in sorted(st["kf"]):
         run.known_finding(KNOWN[cls] + st["kf"][cls][1], key=cls)
     run.cov["evaluations"] = evals
@@ -1176,7 +1160,7 @@ def check(run):
                        "distinct = distinct (statement, protocol, position, listed set, enabled) / (message, plugin config, user, db)" % (len(SHAPES), len(set(s[0] for s in SHAPES)), len(CANON)))
     run.cov["input_distribution"] = {"by_group": st["by_group"], "by_position_protocol": st["by_pos"], "parser_rejected": st["rejected"], "parser_rejected_by_group": st["rejected_by_group"],
                                      "distinct_spellings": len(st["spellings"]), "expected_deny": st["denied"], "intercept_verdicts": st["icpt_kinds"], "intercept_replies_read": st["icpt_matched"],
-                                     "overblocked_nonascii": st["overblock_nonascii"], "known_finding_hits": st["known"], "gap_shapes_now_reported": sorted(st["gaps_closed"]),
+                                     "known_finding_hits": st["known"], "gap_shapes_now_reported": sorted(st["gaps_closed"]),
                                      "model_sequences": st["seq"], "model_sequence_events": st["seq_events"],
                                      "wire_scenarios": st["wire"], "wire_reply_groups": st["wire_groups"], "wire_forwarded_messages": st["wire_forwarded"]}
     run.cov["samples"] = [{"kind": "table_access", "sql": c["sql"], "proto": c["proto"], "listed": [b.decode("utf8", "replace") for b in c["listed"]], "real": c.get("real")} for c in cases[:4]] + \
